@@ -3,12 +3,13 @@
 //!
 //!   case id=<n> prop=C19 app=<a>
 //!   hs conn=<n> local=<k> tt=allowed exp=<k> | tt=owned inv=<n> | tt=invite inv=<n> signer=<k> app=<a> signapp=<a>
-//!      remote=honest key=<k> | wrongkey key=<k> signer2=<k> | replay key=<k> from=<conn> | badrow key=<k> how=<h> | noanswer how=<h>
+//!      remote=honest key=<k> [rowid=<j>: the row carries identity j's row id] | wrongkey key=<k> signer2=<k> | replay key=<k> from=<conn> | badrow key=<k> how=<h> | noanswer how=<h>
 //!        -> res=<true|false|err> key=<k|-> ready=<0|1> events=<Ready|ReadyFingerprint|-> msgs=<connected:k,accepted:k|->
 //!   pm-invite n=<n>                              -> ok            (real create_invite)
 //!   pm-lookup tok=inv:<n>|peer:<k> key=<k>       -> allowed <k> | owned <n> | invite <n> | none   (real get_token_type)
 //!   pm-accepted inv=<n> peer=<k>                 -> ok | no-token (real get_token_type + invite_accepted)
 //!   pm-accept src=forged id=<n> app=<a> signer=<k> | src=bytes hex=<..>   -> ok | err:app | err:decode (real accept_invite)
+//!   pm-restart                                   -> ok            (PeerManager rebuilt from the same database)
 //!   tok-sym a=<n> b=<n>                          -> sym 1|0       (real MeetingSecret::token both ways)
 //! identities: key k = the verifying key derived from `c08::secret_of(k)`; 1 is the instance itself.
 use crate::c08::{key_of, secret_of, APP, MODEL, OWN};
@@ -65,8 +66,13 @@ fn app_name(a: u64, own: u64) -> String {
 }
 /// a valid `sys.Peer` row for identity k (what a running instance of k would present)
 fn peer_row(k: u64) -> Node {
+    peer_row_with_id(k, k)
+}
+/// a correctly self-signed `sys.Peer` row of identity k that carries the row id of identity `id_of`
+/// (the id of a peer row is public and chosen by whoever creates the row)
+fn peer_row_with_id(k: u64, id_of: u64) -> Node {
     let public = meeting_secret_of(k).public_key();
-    let mut n = Peer::create(uid_n(1000 + k), base64_encode(public.as_bytes()));
+    let mut n = Peer::create(uid_n(1000 + id_of), base64_encode(public.as_bytes()));
     n.sign(&signing_key_of(k)).unwrap();
     n
 }
@@ -77,6 +83,8 @@ pub struct Case {
     own_key: Vec<u8>,
     pm: Option<PeerManager>,
     _pm_rx: Option<mpsc::Receiver<PeerConnectionMessage>>,
+    params: DiscretParams,
+    services: DiscretServices,
     app: u64,
     invites: HashMap<u64, Uid>,
     invite_no: HashMap<Uid, u64>,
@@ -112,17 +120,15 @@ impl Case {
             signature_verification: SignatureVerificationService::start(1),
         };
         // the real table; its endpoint only binds a local UDP socket (nothing is ever connected)
-        let (ptx, prx) = mpsc::channel::<PeerConnectionMessage>(64);
-        let pm = match DiscretEndpoint::start(PeerConnectionService { sender: ptx }, 1 << 20, &key).await {
-            Ok(endpoint) => PeerManager::new(&params, &services, endpoint, None, meeting_secret_of(OWN)).await.ok(),
-            Err(_) => None,
-        };
+        let (pm, prx) = Self::build_manager(&params, &services).await;
         Case {
             folder,
             svc,
             own_key: key,
             pm,
             _pm_rx: Some(prx),
+            params,
+            services,
             app: get_u(kv, "app").unwrap_or(1),
             invites: HashMap::new(),
             invite_no: HashMap::new(),
@@ -130,6 +136,18 @@ impl Case {
             tokens_seen: HashSet::new(),
             tokens_total: 0,
         }
+    }
+    /// what the application does at every start: a `PeerManager` built from what the database holds
+    async fn build_manager(
+        params: &DiscretParams,
+        services: &DiscretServices,
+    ) -> (Option<PeerManager>, mpsc::Receiver<PeerConnectionMessage>) {
+        let (ptx, prx) = mpsc::channel::<PeerConnectionMessage>(64);
+        let pm = match DiscretEndpoint::start(PeerConnectionService { sender: ptx }, 1 << 20, &params.verifying_key).await {
+            Ok(endpoint) => PeerManager::new(params, services, endpoint, None, meeting_secret_of(OWN)).await.ok(),
+            Err(_) => None,
+        };
+        (pm, prx)
     }
     pub async fn close(self) {
         let folder = self.folder.clone();
@@ -176,7 +194,11 @@ impl Case {
         }
         let key = get_u(kv, "key");
         let script = match (kv.get("remote").map(|s| s.as_str()), key) {
-            (Some("honest"), Some(k)) => Script::Answer { row: peer_row(k), signer: Some(k), fixed_sig: None },
+            (Some("honest"), Some(k)) => {
+                // `rowid=j`: the presented row carries the id of identity j's peer row (default: its own)
+                let row = peer_row_with_id(k, get_u(kv, "rowid").unwrap_or(k));
+                Script::Answer { row, signer: Some(k), fixed_sig: None }
+            }
             (Some("wrongkey"), Some(k)) => match get_u(kv, "signer2") {
                 Some(k2) => Script::Answer { row: peer_row(k), signer: Some(k2), fixed_sig: None },
                 None => return "bad-op".into(),
@@ -345,6 +367,18 @@ impl Case {
                 }
                 _ => "bad-op".into(),
             },
+            "pm-restart" => {
+                // restart: the in-memory table is dropped and rebuilt from the same database
+                self.pm = None;
+                let (pm, prx) = Self::build_manager(&self.params, &self.services).await;
+                self.pm = pm;
+                self._pm_rx = Some(prx);
+                if self.pm.is_some() {
+                    "ok".into()
+                } else {
+                    "err:no-peer-manager".into()
+                }
+            }
             "pm-invite" | "pm-lookup" | "pm-accepted" | "pm-accept" => {
                 if self.pm.is_none() {
                     return "err:no-peer-manager".into();
@@ -414,8 +448,8 @@ impl Case {
                                     inv.invite_sign = signing_key_of(k).sign(&inv.hash());
                                     if a == self.app {
                                         self.invites.insert(n, inv.invite_id);
-                                        self.invite_no.insert(inv.invite_id, n);
                                     }
+                                    self.invite_no.insert(inv.invite_id, n);
                                     bincode::serialize(&inv).unwrap()
                                 }
                                 _ => return "bad-op".into(),
@@ -453,6 +487,9 @@ const REMOTES: &[&str] = &[
     "remote=honest key=2",
     "remote=honest key=3",
     "remote=honest key=1",
+    "remote=honest key=3 rowid=2",
+    "remote=honest key=2 rowid=3",
+    "remote=honest key=4 rowid=1",
     "remote=wrongkey key=2 signer2=3",
     "remote=wrongkey key=3 signer2=2",
     "remote=replay key=2 from=0",
@@ -503,6 +540,11 @@ pub fn enumerate(out: &str) -> u64 {
           "pm-lookup tok=inv:11 key=2", "pm-lookup tok=peer:2 key=2"],
         &["pm-accept src=forged id=12 app=2 signer=2", "pm-lookup tok=inv:12 key=2", "pm-accept src=bytes hex=", "pm-accept src=bytes hex=0102",
           "pm-accept src=bytes hex=7777777777777777777777777777777700000000000000f0"],
+        &["pm-accept src=forged id=13 app=2 signer=2", "pm-lookup tok=inv:13 key=2", "pm-restart", "pm-lookup tok=inv:13 key=2",
+          "pm-lookup tok=inv:13 key=3", "pm-accepted inv=13 peer=2", "pm-restart", "pm-lookup tok=inv:13 key=2"],
+        &["pm-invite n=5", "pm-accept src=forged id=14 app=1 signer=3", "pm-restart", "pm-lookup tok=inv:5 key=2", "pm-lookup tok=inv:14 key=3",
+          "pm-accepted inv=5 peer=2", "pm-accepted inv=14 peer=3", "pm-lookup tok=peer:2 key=2", "pm-restart", "pm-lookup tok=inv:5 key=4",
+          "pm-lookup tok=inv:14 key=4", "pm-lookup tok=peer:2 key=2", "pm-lookup tok=peer:3 key=3", "pm-lookup tok=peer:3 key=2"],
         &["tok-sym a=1 b=2", "tok-sym a=2 b=1", "tok-sym a=3 b=3", "tok-sym a=9 b=200", "tok-sym a=0 b=255"],
     ];
     for p in patterns {
@@ -524,9 +566,10 @@ pub fn gen(seed: u64, n: usize, out: &str) {
         let mut conn = 0;
         let mut honest: Vec<(u64, u64)> = vec![];
         let mut invites: Vec<u64> = vec![];
+        let mut foreign: Vec<u64> = vec![];
         let mut next_inv = 20u64;
         for _ in 0..(6 + g.below(20)) {
-            match g.weighted(&[10, 2, 4, 3, 2, 3]) {
+            match g.weighted(&[10, 2, 4, 3, 2, 3, 2]) {
                 0 => {
                     let k = 1 + g.below(4) as u64;
                     let tt = match g.below(4) {
@@ -538,9 +581,13 @@ pub fn gen(seed: u64, n: usize, out: &str) {
                         }
                     };
                     let remote = match g.below(9) {
-                        0 | 1 | 2 | 3 => {
+                        0 | 1 | 2 => {
                             honest.push((conn, k));
                             format!("remote=honest key={}", k)
+                        }
+                        3 => {
+                            honest.push((conn, k));
+                            format!("remote=honest key={} rowid={}", k, 1 + g.below(4))
                         }
                         4 => format!("remote=wrongkey key={} signer2={}", k, 1 + (k % 4)),
                         5 if !honest.is_empty() => {
@@ -559,7 +606,9 @@ pub fn gen(seed: u64, n: usize, out: &str) {
                     next_inv += 1;
                 }
                 2 => {
-                    let tok = if !invites.is_empty() && g.chance(2, 3) {
+                    let tok = if !foreign.is_empty() && g.chance(1, 3) {
+                        format!("inv:{}", g.pick(&foreign))
+                    } else if !invites.is_empty() && g.chance(2, 3) {
                         format!("inv:{}", g.pick(&invites))
                     } else if g.chance(1, 2) {
                         format!("peer:{}", 2 + g.below(3))
@@ -577,6 +626,8 @@ pub fn gen(seed: u64, n: usize, out: &str) {
                         writeln!(w, "pm-accept src=forged id={} app={} signer={}", next_inv, a, 2 + g.below(3)).unwrap();
                         if a == 1 {
                             invites.push(next_inv);
+                        } else {
+                            foreign.push(next_inv);
                         }
                         next_inv += 1;
                     } else {
@@ -586,6 +637,7 @@ pub fn gen(seed: u64, n: usize, out: &str) {
                     }
                 }
                 5 => writeln!(w, "tok-sym a={} b={}", g.below(40), g.below(40)).unwrap(),
+                6 => writeln!(w, "pm-restart").unwrap(),
                 _ => {}
             }
         }
